@@ -16,6 +16,7 @@ import (
 	"sync/atomic"
 	"time"
 
+	"github.com/gorilla/websocket"
 	"github.com/graphql-go/graphql/language/ast"
 	"github.com/graphql-go/graphql/language/parser"
 	"github.com/samsarahq/thunder/federation"
@@ -318,20 +319,31 @@ func (e *env) runBomb(c *Case) ([]F, map[string]interface{}) {
 // ---- fake socket ----
 
 type fakeSocket struct {
-	in     chan string
-	mu     sync.Mutex
-	out    []map[string]interface{}
-	closed bool
+	in       chan string
+	mu       sync.Mutex
+	out      []map[string]interface{}
+	closed   bool
+	closedCh chan struct{}
+	// failAt > 0: the failAt-th write and every later one fail (the client vanished); closeErr: with a
+	// websocket close error instead of a plain I/O error
+	failAt   int
+	closeErr bool
+	writes   int
 }
 
 var errClosed = errors.New("websocket: close 1000 (normal)")
 
 func (s *fakeSocket) ReadJSON(v interface{}) error {
-	msg, ok := <-s.in
-	if !ok {
-		return errClosed
+	select {
+	case msg, ok := <-s.in:
+		if !ok {
+			return errClosed
+		}
+		return json.Unmarshal([]byte(msg), v)
+	case <-s.closedCh:
+		// a socket the server closed itself does not deliver anything any more
+		return errors.New("read: use of closed connection")
 	}
-	return json.Unmarshal([]byte(msg), v)
 }
 
 func (s *fakeSocket) WriteJSON(v interface{}) error {
@@ -342,14 +354,24 @@ func (s *fakeSocket) WriteJSON(v interface{}) error {
 	var m map[string]interface{}
 	json.Unmarshal(b, &m)
 	s.mu.Lock()
+	defer s.mu.Unlock()
+	s.writes++
+	if s.failAt > 0 && s.writes >= s.failAt {
+		if s.closeErr {
+			return &websocket.CloseError{Code: websocket.CloseGoingAway, Text: "client gone"}
+		}
+		return errors.New("write: broken pipe")
+	}
 	s.out = append(s.out, m)
-	s.mu.Unlock()
 	return nil
 }
 
 func (s *fakeSocket) Close() error {
 	s.mu.Lock()
-	s.closed = true
+	if !s.closed {
+		s.closed = true
+		close(s.closedCh)
+	}
 	s.mu.Unlock()
 	return nil
 }
@@ -389,10 +411,28 @@ func (e *env) runSocket(c *Case) ([]F, map[string]interface{}) {
 	var fs []F
 	obs := map[string]interface{}{}
 	base := runtime.NumGoroutine()
-	sock := &fakeSocket{in: make(chan string)}
+	sock := &fakeSocket{in: make(chan string), closedCh: make(chan struct{}), failAt: c.FailWrite, closeErr: c.FailClose}
 	ctx, cancel := context.WithCancel(context.Background())
 	defer cancel()
-	conn := graphql.CreateConnection(ctx, sock, e.schema, graphql.WithMinRerunInterval(2*time.Millisecond))
+	opts := []graphql.ConnectionOption{graphql.WithMinRerunInterval(2 * time.Millisecond)}
+	if c.PanicIn == "makectx" {
+		var calls int32
+		opts = append(opts, graphql.WithMakeCtx(func(ctx context.Context) context.Context {
+			if atomic.AddInt32(&calls, 1) >= 2 {
+				panic("makeCtx panics")
+			}
+			return ctx
+		}))
+	}
+	conn := graphql.CreateConnection(ctx, sock, e.schema, opts...)
+	if c.PanicIn == "middleware" {
+		conn.Use(func(input *graphql.ComputationInput, next graphql.MiddlewareNextFunc) *graphql.ComputationOutput {
+			if strings.Contains(input.Query, "boom") {
+				panic("middleware panics")
+			}
+			return next(input)
+		})
+	}
 	served := make(chan string, 1)
 	go func() {
 		defer func() {
@@ -425,6 +465,16 @@ func (e *env) runSocket(c *Case) ([]F, map[string]interface{}) {
 		return n
 	}
 	alive := true
+	lossy := c.FailWrite > 0 // replies get lost from some point on: only "returns, no panic, no leak" is checked
+	waitCap := promptCap
+	if lossy {
+		waitCap = 30 * time.Millisecond
+	}
+	note := func(f F) {
+		if !lossy {
+			fs = append(fs, f)
+		}
+	}
 	healthy := []string{}
 	bumps := 0
 	hardJunk := false
@@ -436,8 +486,8 @@ func (e *env) runSocket(c *Case) ([]F, map[string]interface{}) {
 		case "bump":
 			// every healthy subscription must have had its first answer before data changes
 			for _, id := range healthy {
-				if !waitFor(promptCap, func() bool { return count(id, "update") >= 1 }) {
-					fs = append(fs, F{"healthy-subscription-silent", fmt.Sprintf("subscription %s got no initial update (step %d)", id, i)})
+				if !waitFor(waitCap, func() bool { return count(id, "update") >= 1 }) {
+					note(F{"healthy-subscription-silent", fmt.Sprintf("subscription %s got no initial update (step %d)", id, i)})
 				}
 			}
 			before := map[string]int{}
@@ -448,8 +498,8 @@ func (e *env) runSocket(c *Case) ([]F, map[string]interface{}) {
 			bumps++
 			for _, id := range healthy {
 				id := id
-				if !waitFor(promptCap, func() bool { return count(id, "update") > before[id] }) {
-					fs = append(fs, F{"other-subscription-stopped-after-failing-request", fmt.Sprintf("subscription %s got no update after the data changed", id)})
+				if !waitFor(waitCap, func() bool { return count(id, "update") > before[id] }) {
+					note(F{"other-subscription-stopped-after-failing-request", fmt.Sprintf("subscription %s got no update after the data changed", id)})
 				}
 			}
 		case "close":
@@ -457,7 +507,7 @@ func (e *env) runSocket(c *Case) ([]F, map[string]interface{}) {
 			alive = false
 		case "send":
 			if !send(st.Env) {
-				fs = append(fs, F{"connection-stopped-reading", fmt.Sprintf("step %d (%s) could not be delivered", i, st.Kind)})
+				note(F{"connection-stopped-reading", fmt.Sprintf("step %d (%s) could not be delivered", i, st.Kind)})
 				alive = false
 				break
 			}
@@ -465,13 +515,13 @@ func (e *env) runSocket(c *Case) ([]F, map[string]interface{}) {
 			case "healthy":
 				healthy = append(healthy, st.ID)
 				id := st.ID
-				if !waitFor(promptCap, func() bool { return count(id, "update") >= 1 }) {
-					fs = append(fs, F{"healthy-subscription-silent", fmt.Sprintf("subscription %s got no initial update (step %d)", id, i)})
+				if !waitFor(waitCap, func() bool { return count(id, "update") >= 1 }) {
+					note(F{"healthy-subscription-silent", fmt.Sprintf("subscription %s got no initial update (step %d)", id, i)})
 				}
 			case "panic", "mutate-panic":
 				id := st.ID
-				if !waitFor(promptCap, func() bool { return count(id, "error") >= 1 }) {
-					fs = append(fs, F{"failing-request-got-no-error", fmt.Sprintf("request %s (%s) got no error envelope", id, st.Kind)})
+				if !waitFor(waitCap, func() bool { return count(id, "error") >= 1 }) {
+					note(F{"failing-request-got-no-error", fmt.Sprintf("request %s (%s) got no error envelope", id, st.Kind)})
 					break
 				}
 				want := "Internal server error"
@@ -480,27 +530,27 @@ func (e *env) runSocket(c *Case) ([]F, map[string]interface{}) {
 				}
 				for _, m := range sock.messages(id) {
 					if m["type"] == "error" && m["message"] != want {
-						fs = append(fs, F{"failing-request-error-not-sanitised", fmt.Sprintf("request %s: message %v", id, m["message"])})
+						note(F{"failing-request-error-not-sanitised", fmt.Sprintf("request %s: message %v", id, m["message"])})
 					}
 					if m["type"] == "update" || m["type"] == "result" {
-						fs = append(fs, F{"failing-request-got-data", fmt.Sprintf("request %s: %v", id, m)})
+						note(F{"failing-request-got-data", fmt.Sprintf("request %s: %v", id, m)})
 					}
 				}
 			case "soft-junk":
 				id := st.ID
-				if !waitFor(promptCap, func() bool { return count(id, "error") >= 1 || count(id, "update") >= 1 }) {
+				if !waitFor(waitCap, func() bool { return count(id, "error") >= 1 || count(id, "update") >= 1 }) {
 					// a url message with a wrong payload is answered with an error too; anything else silent is a finding
-					fs = append(fs, F{"junk-envelope-unanswered", fmt.Sprintf("step %d: %s", i, st.Env)})
+					note(F{"junk-envelope-unanswered", fmt.Sprintf("step %d: %s", i, st.Env)})
 				}
 			case "echo":
 				id := st.ID
-				if !waitFor(promptCap, func() bool { return count(id, "echo") >= 1 }) {
-					fs = append(fs, F{"connection-stopped-answering", fmt.Sprintf("echo %s unanswered (step %d)", id, i)})
+				if !waitFor(waitCap, func() bool { return count(id, "echo") >= 1 }) {
+					note(F{"connection-stopped-answering", fmt.Sprintf("echo %s unanswered (step %d)", id, i)})
 				}
 			case "mutate-ok":
 				id := st.ID
-				if !waitFor(promptCap, func() bool { return count(id, "result") >= 1 }) {
-					fs = append(fs, F{"connection-stopped-answering", fmt.Sprintf("mutation %s unanswered (step %d)", id, i)})
+				if !waitFor(waitCap, func() bool { return count(id, "result") >= 1 }) {
+					note(F{"connection-stopped-answering", fmt.Sprintf("mutation %s unanswered (step %d)", id, i)})
 				}
 			case "hard-junk":
 				hardJunk = true
@@ -535,6 +585,9 @@ func (e *env) runSocket(c *Case) ([]F, map[string]interface{}) {
 		}
 	}
 	obs["steps"], obs["failing_requests"], obs["hard_junk"], obs["out"] = len(c.Script), npanic, hardJunk, len(sock.out)
+	if lossy {
+		obs["failed_write"] = c.FailWrite
+	}
 	return fs, obs
 }
 
